@@ -428,22 +428,19 @@ class P:
             if self.accept(";"):
                 protos[name] = (base, ps)
                 continue
-            if name in SKIPPED_OK:
-                # not part of the model (listed explicitly): skip the balanced body
-                self.expect("{")
-                depth = 1
-                while depth:
-                    t = self.next()
-                    if t == ("op", "{"):
-                        depth += 1
-                    elif t == ("op", "}"):
-                        depth -= 1
-                    elif t[0] == "eof":
-                        raise Unsupported("unterminated body of %s" % name)
-                order.append(name)
-                continue
-            body = self.block()
-            funcs[name] = dict(name=name, ret=base, params=ps, body=body)
+            # bodies are parsed lazily: only what is reachable from the public entry point is translated
+            self.expect("{")
+            start = self.i - 1
+            depth = 1
+            while depth:
+                t = self.next()
+                if t == ("op", "{"):
+                    depth += 1
+                elif t == ("op", "}"):
+                    depth -= 1
+                elif t[0] == "eof":
+                    raise Unsupported("unterminated body of %s" % name)
+            funcs[name] = dict(name=name, ret=base, params=ps, body=None, tokens=self.t[start:self.i])
             order.append(name)
         return funcs, tables, order
 
@@ -461,12 +458,18 @@ def lit_real(fr):
 
 
 class Emitter:
-    def __init__(self, funcs):
+    def __init__(self, funcs, roles=None, inline=()):
         self.funcs = funcs
-        self.fnames = {lean_name(f) for f in funcs}
+        self.roles = roles or {}
+        self.inline = set(inline)
+        self.fnames = {self.lname(f) for f in funcs}
         self.sigs = {}
         for f in funcs.values():
             self.analyse(f)
+
+    def lname(self, c):
+        """Lean name of a C function: its structural role if it has one (alpha-renaming of statics is irrelevant)"""
+        return self.roles.get(c, lean_name(c))
 
     # ---- analysis: which int params index arrays (-> Fin N), which array params are written
     def analyse(self, f):
@@ -628,6 +631,11 @@ class Emitter:
             return lit_real(Fraction(e[1]))
         if k == "char":
             return e[1]
+        if k == "var" and isinstance(names.get(e[1]), tuple):
+            kval = names[e[1]][1]
+            if kval < 0:
+                raise Unsupported("%s: negative integer constant %s reaches an expression" % (f["name"], e[1]))
+            return self.ex(f, ("int", kval), want, names)
         if k == "var":
             if e[1] == "THM_EPSILON":
                 return "THM_EPSILON"
@@ -687,7 +695,7 @@ class Emitter:
             if p["fptr"] is not None:
                 if a[0] != "var" or a[1] not in self.sigs:
                     raise Unsupported("%s: function argument %r" % (f["name"], a))
-                args.append("(%s eps)" % lean_name(a[1]))
+                args.append("(%s eps)" % self.lname(a[1]))
             elif p["dims"]:
                 if a[0] != "var":
                     raise Unsupported("%s: array argument %r" % (f["name"], a))
@@ -701,7 +709,7 @@ class Emitter:
             else:
                 n = g["fin"].get(p["name"])
                 args.append(self.ex(f, a, ("fin", n) if n else "nat", names))
-        return "(%s eps %s)" % (lean_name(e[1]), " ".join(args)) if args else "(%s eps)" % lean_name(e[1]), wr
+        return "(%s eps %s)" % (self.lname(e[1]), " ".join(args)) if args else "(%s eps)" % self.lname(e[1]), wr
 
     # ---- statements (continuation style)
     def stmts(self, f, ss, names, defined, ind, tail):
@@ -721,9 +729,40 @@ class Emitter:
             if f["written"]:
                 val = "(%s, %s)" % (val, ", ".join(names.get(w, w) for w in f["written"]))
             return pad + val
+        if k == "inline_return":
+            # `return e` of an inlined helper: bind the caller's variable (a compile-time constant) and go on with the caller
+            _, target, e, caller_rest = s
+            kval = const_int(e)
+            if kval is None:
+                raise Unsupported("%s: inlined helper returns a non-constant" % f["name"])
+            names2 = dict(names)
+            names2[target] = ("const", kval)
+            return self.stmts(f, caller_rest, names2, defined | {target}, ind, tail)
+        if k == "continue":
+            if tail is None:
+                raise Unsupported("%s: `continue` outside a loop" % f["name"])
+            return pad + tail(names)
+        if k == "assign" and not s[2] and s[3][0] == "call" and s[3][1] in self.inline:
+            # single-value integer helper (region index): inline its if/return ladder into the caller
+            h = self.funcs[s[3][1]]
+            if len(s[3][2]) != len(h["params"]):
+                raise Unsupported("%s: arity of %s" % (f["name"], s[3][1]))
+            sub = {}
+            for a, pm in zip(s[3][2], h["params"]):
+                if a[0] not in ("var", "int"):
+                    raise Unsupported("%s: argument of inlined %s is not a variable" % (f["name"], s[3][1]))
+                sub[pm["name"]] = a
+            body = subst_stmts(h["body"], sub, s[1], rest)
+            return self.stmts(f, body, names, defined, ind, tail)
+        if k == "if":
+            fc = self.fold(s[1], names)
+            if fc is not None:
+                return self.stmts(f, (s[2] if fc else s[3]) + rest, names, defined, ind, tail)
         if k == "assign":
             self.check_defined(f, s[3], defined)
             name = s[1]
+            if isinstance(names.get(name), tuple):
+                names = {a: b for a, b in names.items() if a != name}
             t = f["env"].get(name) or f["locs"].get(name)
             if t is None:
                 raise Unsupported("%s: assignment to unknown %s" % (f["name"], name))
@@ -742,7 +781,7 @@ class Emitter:
             else:
                 val = self.ex(f, s[3], "real" if t[0] == "real" else "nat", names)
             return pad + "let %s := %s\n" % (ln, val) + self.stmts(f, rest, names, defined | {name}, ind, tail)
-        if k == "if" and rest and not any(x[0] == "return" for x in self.flat(s[2] + s[3])):
+        if k == "if" and rest and not any(x[0] in ("return", "continue", "break", "inline_return") for x in self.flat(s[2] + s[3])):
             # no early exit in the branches: join the assigned variables instead of duplicating the rest
             self.check_defined(f, s[1], defined)
             c = self.ex(f, s[1], "bool", names)
@@ -800,7 +839,9 @@ class Emitter:
                 raise Unsupported("%s: loop variable %s (bound %d) indexes an array of length %d" % (f["name"], var, n, f["fin"][var]))
             assigned = []
             self.assigned(body, assigned)
-            assigned = [a for a in assigned if a != var]
+            inl = {x[1] for x in self.flat(body) if x[0] == "assign" and not x[2] and x[3][0] == "call" and x[3][1] in self.inline}
+            other = {x[1] for x in self.flat(body) if x[0] == "assign" and not (not x[2] and x[3][0] == "call" and x[3][1] in self.inline)}
+            assigned = [a for a in assigned if a != var and not (a in inl and a not in other)]
             if any(x[0] in ("return",) for x in self.flat(body)):
                 raise Unsupported("%s: return inside a loop" % f["name"])
             for a in assigned:
@@ -817,22 +858,29 @@ class Emitter:
             bodytxt = self.stmts(f2, body, names, defined | set(assigned) | {var}, ind + 2, lambda nm: st)
             loop = pad + "let %s := loopFin %d %s (fun %s %s =>\n%s)\n" % (st, n, st, names.get(var, var), st, bodytxt)
             return pre + loop + self.stmts(f, rest, names, defined | set(assigned), ind, tail)
-        if k in ("continue", "break"):
-            raise Unsupported("%s: `%s` is outside the subset" % (f["name"], k))
+        if k == "break":
+            raise Unsupported("%s: `break` is outside the subset" % f["name"])
         raise Unsupported("statement %r" % (k,))
 
+    def fold(self, e, names):
+        """truth value of a condition that only involves integer constants, else None"""
+        def val(x):
+            if x[0] == "int":
+                return x[1]
+            if x[0] == "neg" and x[1][0] == "int":
+                return -x[1][1]
+            if x[0] == "var" and isinstance(names.get(x[1]), tuple):
+                return names[x[1]][1]
+            return None
+        if e[0] == "bin" and e[1] in ("<", ">", "<=", ">=", "==", "!="):
+            a, b = val(e[2]), val(e[3])
+            if a is None or b is None:
+                return None
+            return {"<": a < b, ">": a > b, "<=": a <= b, ">=": a >= b, "==": a == b, "!=": a != b}[e[1]]
+        return None
+
     def flat(self, ss):
-        for s in ss:
-            yield s
-            if s[0] == "if":
-                yield from self.flat(s[2]); yield from self.flat(s[3])
-            elif s[0] == "switch":
-                for _, b in s[2]:
-                    yield from self.flat(b)
-            elif s[0] == "for":
-                yield from self.flat(s[3])
-            elif s[0] == "eps":
-                yield from self.flat(s[1])
+        yield from flat_stmts(ss)
 
     def assigned(self, ss, acc):
         for s in self.flat(ss):
@@ -885,7 +933,83 @@ class Emitter:
                 pre += "  let %s : Fin %d → α := fun _ => ((0 : Nat) : α)\n" % (names.get(v, v), t[2][0])
         defined = {p["name"] for p in f["params"]} | {v for v, t in f["locs"].items() if t[0] == "arr"}
         body = self.stmts(f, f["body"], names, defined, 1, None)
-        return "def %s %s : %s :=\n%s%s\n" % (lean_name(f["name"]), " ".join(ps), ret, pre, body)
+        return "def %s %s : %s :=\n%s%s\n" % (self.lname(f["name"]), " ".join(ps), ret, pre, body)
+
+
+def flat_stmts(ss):
+    for s in ss:
+        yield s
+        if s[0] == "if":
+            yield from flat_stmts(s[2]); yield from flat_stmts(s[3])
+        elif s[0] == "switch":
+            for _, b in s[2]:
+                yield from flat_stmts(b)
+        elif s[0] == "for":
+            yield from flat_stmts(s[3])
+        elif s[0] == "eps":
+            yield from flat_stmts(s[1])
+
+
+def const_int(e):
+    if e[0] == "int":
+        return e[1]
+    if e[0] == "neg" and e[1][0] == "int":
+        return -e[1][1]
+    return None
+
+
+def subst_expr(e, sub):
+    if e[0] == "var" and e[1] in sub:
+        return sub[e[1]]
+    if e[0] == "index" and e[1] in sub:
+        if sub[e[1]][0] != "var":
+            raise Unsupported("inlining: array parameter bound to a non-variable")
+        return ("index", sub[e[1]][1], [subst_expr(x, sub) for x in e[2]])
+    out = []
+    for part in e:
+        if isinstance(part, tuple):
+            out.append(subst_expr(part, sub))
+        elif isinstance(part, list):
+            out.append([subst_expr(x, sub) if isinstance(x, tuple) else x for x in part])
+        else:
+            out.append(part)
+    return tuple(out)
+
+
+def subst_stmts(ss, sub, target, caller_rest):
+    """body of an inlined helper: parameters replaced by the caller's arguments, `return e` -> bind target, continue with the caller"""
+    out = []
+    for st in ss:
+        k = st[0]
+        if k == "return":
+            out.append(("inline_return", target, subst_expr(st[1], sub), caller_rest))
+        elif k == "if":
+            out.append(("if", subst_expr(st[1], sub), subst_stmts(st[2], sub, target, caller_rest), subst_stmts(st[3], sub, target, caller_rest)))
+        elif k == "decl":
+            raise Unsupported("inlining: helper with local variables")
+        else:
+            raise Unsupported("inlining: statement %r in a helper" % (k,))
+    return out
+
+
+def is_region_helper(f):
+    """int-valued helper without locals whose body is a ladder of `if (..) return <int literal>;` ending in a literal return"""
+    if f["ret"] not in ("int64_t", "int"):
+        return False
+
+    def ok(ss):
+        for st in ss:
+            if st[0] == "return":
+                if const_int(st[1]) is None:
+                    return False
+            elif st[0] == "if":
+                if not ok(st[2]) or not ok(st[3]):
+                    return False
+            else:
+                return False
+        return True
+
+    return bool(f["body"]) and ok(f["body"]) and f["body"][-1][0] == "return"
 
 
 def table_lean(name, dims, init):
@@ -1010,24 +1134,49 @@ def translate_dos_loop(path):
                 break
         k += 1
     body = src[start:k + 1]
-    heads = [mm for mm in re.finditer(r"for\s*\(\s*j\s*=\s*0\s*;\s*j\s*<\s*num_freq_points\s*;\s*j\+\+\s*\)\s*\{", body)]
-    if len(heads) != 1:
-        raise Unsupported("phpy_tetrahedron_method_dos: expected exactly one loop over the frequency points, found %d" % len(heads))
-    b0 = heads[0].end() - 1
-    depth, k = 0, b0
-    while True:
-        if body[k] == "{":
-            depth += 1
-        elif body[k] == "}":
-            depth -= 1
-            if depth == 0:
-                break
-        k += 1
-    loop_src = "\n".join(l for l in body[b0:k + 1].split("\n") if not l.strip().startswith("#"))
-    mhead = re.search(r"for\s*\(\s*m\s*=", loop_src)
-    if not mhead:
-        raise Unsupported("phpy_tetrahedron_method_dos: accumulation loop over the coefficients not found")
-    stmts = P(tokenize(loop_src[:mhead.start()] + "}")).block()
+    body = "\n".join(l for l in body.split("\n") if not l.strip().startswith("#"))
+    calls = [mm.start() for mm in re.finditer(r"thm_get_integration_weight\s*\(", body)]
+    if len(calls) != 1:
+        raise Unsupported("phpy_tetrahedron_method_dos: expected exactly one call of thm_get_integration_weight, found %d" % len(calls))
+    cpos = calls[0]
+    # innermost counting loop `for (V = 0; V < BOUND; V++) {` whose block contains the call: the frequency-point loop
+    best = None
+    for mm in re.finditer(r"for\s*\(\s*(\w+)\s*=\s*0\s*;\s*(\w+)\s*<\s*(\w+)\s*;\s*(\w+)\s*\+\+\s*\)\s*\{", body):
+        if not (mm.group(1) == mm.group(2) == mm.group(4)):
+            continue
+        b0 = mm.end() - 1
+        depth, k = 0, b0
+        while True:
+            if body[k] == "{":
+                depth += 1
+            elif body[k] == "}":
+                depth -= 1
+                if depth == 0:
+                    break
+            k += 1
+        if b0 < cpos < k and (best is None or b0 > best[1]):
+            best = (mm.group(1), b0, k)
+    if best is None:
+        raise Unsupported("phpy_tetrahedron_method_dos: no counting loop around the call of thm_get_integration_weight")
+    var, b0, b1 = best
+    loop_src = body[b0:b1 + 1]
+    rel = cpos - b0
+    # the statement that contains the call:  X = thm_get_integration_weight(ARR[V], <tetrahedra>, 'I') * <multiplicity>;
+    st0 = max(loop_src.rfind(";", 0, rel), loop_src.rfind("{", 0, rel), loop_src.rfind("}", 0, rel)) + 1
+    st1 = loop_src.index(";", rel) + 1
+    mcall = re.fullmatch(r"\s*(\w+)\s*=\s*thm_get_integration_weight\s*\(\s*(\w+)\s*\[\s*%s\s*\]\s*,\s*\w+\s*,\s*'I'\s*\)\s*\*\s*([^;]*);" % re.escape(var),
+                         loop_src[st0:st1], flags=re.S)
+    if not mcall:
+        raise Unsupported("phpy_tetrahedron_method_dos: expected `iw = thm_get_integration_weight(freq_points[j], tetrahedra, 'I') * <multiplicity>;`")
+    arr = mcall.group(2)
+    if re.search(r"\b%s\b" % re.escape(arr), mcall.group(3)):
+        raise Unsupported("phpy_tetrahedron_method_dos: the multiplicity factor depends on the frequency points")
+    tail = loop_src[st1:-1]
+    if re.search(r"\b(continue|break|return|goto|if|while|switch|do)\b", tail):
+        raise Unsupported("phpy_tetrahedron_method_dos: control flow after the integration weight in the frequency loop")
+    if not re.search(r"\+=\s*%s\s*\*" % re.escape(mcall.group(1)), tail):
+        raise Unsupported("phpy_tetrahedron_method_dos: the integration weight is not accumulated with `+= iw * coef`")
+    stmts = P(tokenize(loop_src[:st0] + "}")).block()
 
     def cmp_lean(e):
         if e[0] == "bin" and e[1] in ("<", ">", "<=", ">="):
@@ -1038,7 +1187,7 @@ def translate_dos_loop(path):
         raise Unsupported("phpy_tetrahedron_method_dos: guard condition %r" % (e,))
 
     def atom(e):
-        if e == ("index", "freq_points", [("var", "j")]):
+        if e == ("index", arr, [("var", var)]):
             return "w"
         if e in (("var", "fmin"), ("var", "fmax")):
             return e[1]
@@ -1051,17 +1200,8 @@ def translate_dos_loop(path):
         if b or len(a) != 1 or a[0][0] not in ("continue", "break"):
             raise Unsupported("phpy_tetrahedron_method_dos: conditional in the frequency loop is not `if (..) continue;|break;`")
         guards.append((cmp_lean(c), a[0][0]))
-    want_iw = ("assign", "iw", [], ("bin", "*", ("call", "thm_get_integration_weight",
-               [("index", "freq_points", [("var", "j")]), ("var", "tetrahedra"), ("char", "'I'")]), ("index", "weights", [("var", "i")])))
-    if not rest or rest[0] != want_iw:
-        raise Unsupported("phpy_tetrahedron_method_dos: expected `iw = thm_get_integration_weight(freq_points[j], tetrahedra, 'I') * weights[i];`")
-    rest.pop(0)
     if rest:
-        raise Unsupported("phpy_tetrahedron_method_dos: unexpected statements between the integration weight and the accumulation loop")
-    # accumulation loop: for (m = 0; m < num_coef; m++) dos[...] += iw * coef[...];  (bound is a variable: matched textually)
-    tail = loop_src[loop_src.index("weights[i];") + len("weights[i];"):]
-    if not re.fullmatch(r"\s*for\s*\(\s*m\s*=\s*0\s*;\s*m\s*<\s*num_coef\s*;\s*m\+\+\s*\)\s*\{\s*dos\[[^;]*\]\s*\+=\s*iw\s*\*\s*coef\[[^;]*\]\s*;\s*\}\s*\}\s*", tail):
-        raise Unsupported("phpy_tetrahedron_method_dos: unexpected statements after the integration weight in the frequency loop")
+        raise Unsupported("phpy_tetrahedron_method_dos: unexpected statements before the integration weight in the frequency loop")
     out = "/-- control structure of the frequency-point loop of `c/phonopy.c: phpy_tetrahedron_method_dos`\n"
     out += "(source sha256 of phonopy.c: %s): `some (visit ω)` where the loop body runs, `none` where it is skipped. -/\n" % __import__("hashlib").sha256(raw.encode()).hexdigest()
     out += "def dos_freq_loop {β : Type} (fmin fmax : α) (visit : α → β) : List α → List (Option β)\n  | [] => []\n  | w :: rest =>\n"
@@ -1074,27 +1214,139 @@ def translate_dos_loop(path):
     return out
 
 
+ENTRY = "thm_get_integration_weight"
+
+
+def calls_of(ss):
+    """names called or passed as function arguments in a statement list"""
+    acc = []
+
+    def we(e):
+        if e[0] == "call":
+            acc.append(e[1])
+        if e[0] == "var":
+            acc.append(e[1])
+        for sub in e[1:]:
+            if isinstance(sub, tuple):
+                we(sub)
+            elif isinstance(sub, list):
+                for x in sub:
+                    if isinstance(x, tuple):
+                        we(x)
+
+    def ws(ss):
+        for st in ss:
+            if st[0] in ("return",):
+                we(st[1])
+            elif st[0] == "assign":
+                for ix in st[2]:
+                    we(ix)
+                we(st[3])
+            elif st[0] == "if":
+                we(st[1]); ws(st[2]); ws(st[3])
+            elif st[0] == "switch":
+                we(st[1])
+                for _, b in st[2]:
+                    ws(b)
+            elif st[0] == "for":
+                ws(st[3])
+            elif st[0] == "eps":
+                ws(st[1])
+
+    ws(ss)
+    return acc
+
+
+def find_roles(funcs):
+    """Structural roles of the functions reachable from the entry point -> canonical Lean names (the theorems refer to
+    these; the C names of static functions are irrelevant)."""
+    roles = {ENTRY: "thm_get_integration_weight"}
+    try:
+        body = funcs[ENTRY]["body"]
+        st = [x for x in body if x[0] == "if"][0]
+        cond, a, b = st[1], st[2], st[3]
+        ca, cb = a[-1][1], b[-1][1]
+        if not (cond[0] == "bin" and cond[1] == "==" and ("char", "'I'") in (cond[2], cond[3])):
+            return roles
+        if ca[0] != "call" or cb[0] != "call" or ca[1] != cb[1] or len(ca[2]) != 4:
+            return roles
+        roles[ca[1]] = "get_integration_weight"
+        roles[ca[2][2][1]], roles[ca[2][3][1]] = "g", "I"
+        roles[cb[2][2][1]], roles[cb[2][3][1]] = "n", "J"
+        integ = funcs[ca[1]]
+        # the callee that writes its array argument: the vertex sort
+        for st_ in flat_stmts(integ["body"]):
+            if st_[0] == "assign" and st_[3][0] == "call" and st_[3][1] in funcs and st_[3][1] not in roles:
+                g_ = funcs[st_[3][1]]
+                if any(p["dims"] and not p.get("const") for p in g_["params"]) and g_["ret"] in ("int64_t", "int") and len(g_["params"]) == 1:
+                    roles[st_[3][1]] = "sort_omegas"
+        # dispatchers: switch (i) { case k: [switch (ci) { case c: return X(..) }] | return X(..) }
+        for cname, tag in list(roles.items()):
+            if tag not in ("g", "I", "n", "J"):
+                continue
+            for st_ in funcs[cname]["body"]:
+                if st_[0] != "switch":
+                    continue
+                for lab, b_ in st_[2]:
+                    for x in b_:
+                        if x[0] == "return" and x[1][0] == "call" and x[1][1] in funcs:
+                            roles.setdefault(x[1][1], "%s_%d" % (tag, lab))
+                        if x[0] == "switch":
+                            for lab2, b2 in x[2]:
+                                for y in b2:
+                                    if y[0] == "return" and y[1][0] == "call" and y[1][1] in funcs:
+                                        roles.setdefault(y[1][1], "%s_%d%d" % (tag, lab, lab2))
+        # the ratio function: the only callee of the leaf formulas without a role, (int, int, double, double[4])
+        cands = set()
+        for cname, tag in roles.items():
+            if re.fullmatch(r"[gnIJ]_\d+", tag):
+                for c_ in calls_of(funcs[cname]["body"]):
+                    if c_ in funcs and c_ not in roles and len(funcs[c_]["params"]) == 4:
+                        cands.add(c_)
+        if len(cands) == 1:
+            roles[cands.pop()] = "f"
+    except (KeyError, IndexError, TypeError):
+        pass
+    if len(set(roles.values())) != len(roles):
+        return {ENTRY: "thm_get_integration_weight"}
+    return roles
+
+
 def translate(src_path):
     import hashlib
 
     raw = open(src_path).read()
     funcs, tables, order = P(tokenize(preprocess(raw))).toplevel()
-    for n in order:
-        if n not in WANTED and n not in SKIPPED_OK:
-            raise Unsupported("function %s is neither in the translation list nor in the known-skipped list" % n)
-    missing = [n for n in WANTED if n not in funcs]
-    if missing:
-        raise Unsupported("functions not found in the source: %s" % missing)
+    if ENTRY not in funcs:
+        raise Unsupported("public entry point %s not found" % ENTRY)
     for tname in TABLES:
         if tname not in tables:
             raise Unsupported("table %s not found" % tname)
-    sub = {n: funcs[n] for n in WANTED}
-    em = Emitter(sub)
+    # everything reachable from the public entry point (through calls and function-valued arguments) is translated;
+    # what is not reachable cannot feed the translated expressions and is not even parsed
+    reach, todo = [], [ENTRY]
+    while todo:
+        n = todo.pop()
+        if n in reach:
+            continue
+        reach.append(n)
+        f = funcs[n]
+        f["body"] = P(f["tokens"]).block()
+        for c in calls_of(f["body"]):
+            if c in funcs and c not in reach:
+                todo.append(c)
+    sub = {n: funcs[n] for n in reach}
+    roles = find_roles(sub)
+    inline = [n for n in reach if n not in roles and is_region_helper(sub[n])]
+    em = Emitter(sub, roles, inline)
     out = HEADER % hashlib.sha256(raw.encode()).hexdigest()
+    out = out.replace("source sha256:", "C name -> Lean name: %s\ninlined: %s\nsource sha256:" % (
+        ", ".join("%s -> %s" % (k, v) for k, v in sorted(roles.items()) if lean_name(k) != v) or "(all canonical)", ", ".join(inline) or "(none)"))
     for tname in TABLES:
         out += table_lean(tname, *tables[tname]) + "\n"
-    for n in call_graph_order(sub, WANTED):
-        out += em.function(sub[n]) + "\n"
+    for n in call_graph_order(sub, sorted(n for n in reach if n not in inline)):
+        if n not in inline:
+            out += em.function(sub[n]) + "\n"
     out += translate_dos_loop(os.path.join(os.path.dirname(src_path), "phonopy.c"))
     out += "end PhononModel.TetraC\n"
     return out
